@@ -427,6 +427,24 @@ class Operator(Enum):
         }[token]
 
 
+def cell_value(value, value_type):
+    """The value a machine cell of the given type holds after `value`
+    is stored in it; raises OverflowError if the machine would trap
+    because the type cannot hold the value."""
+    if isinstance(value, complex) or not value_type.can_hold(value):
+        raise OverflowError
+    return value_type.coerce(value)
+
+
+def convert_value(value, from_type, to_type):
+    """What the machine's conv instruction makes of a value."""
+    if from_type == to_type:
+        return value
+    if to_type.is_integral and isinstance(value, float):
+        value = int(round(value))
+    return cell_value(value, to_type)
+
+
 class Expr(Node):
     # These will be set by the relevant parse action to the start and
     # end indices of the expression in the input string. Since we only
@@ -466,7 +484,9 @@ class Expr(Node):
         if self.is_const:
             try:
                 value = self.eval()
-            except (OverflowError, ZeroDivisionError):
+            except (OverflowError, ZeroDivisionError, ValueError):
+                # evaluation fails; leave the expression alone so that
+                # it fails at run time, where the error belongs
                 return self
             if self.type.is_numeric:
                 literal = NumericLiteral(value, self.type)
@@ -696,57 +716,81 @@ class BinaryOp(Expr):
                 'non-primitive values')
 
     def _eval_numeric(self):
-        left = self.type.coerce(self.left.eval())
-        right = self.type.coerce(self.right.eval())
+        # Evaluate exactly the way the generated code does at run time:
+        # convert the operands to the type the instruction works on
+        # (see gen_binary_op in the code generator), perform the
+        # operation, then store the result in a cell of the result
+        # type. Anything the machine would trap on raises
+        # OverflowError or ZeroDivisionError here.
+        ltype = self.left.type
+        rtype = self.right.type
+        if self.op.is_comparison:
+            if Type.DOUBLE in (ltype, rtype):
+                operand_type = Type.DOUBLE
+            elif Type.SINGLE in (ltype, rtype):
+                operand_type = Type.SINGLE
+            elif Type.LONG in (ltype, rtype):
+                operand_type = Type.LONG
+            else:
+                operand_type = Type.INTEGER
+        else:
+            operand_type = self.type
+
+        left = convert_value(self.left.eval(), ltype, operand_type)
+        right = convert_value(self.right.eval(), rtype, operand_type)
 
         def qbool(x):
             return -1 if x else 0
 
-        def limit(x):
-            if not self.left.type.is_integral:
-                return x
+        def idiv(a, b):
+            # truncates toward zero
+            q = abs(a) // abs(b)
+            return q if (a < 0) == (b < 0) else -q
 
-            c_type = {
-                Type.INTEGER: ctypes.c_short,
-                Type.LONG: ctypes.c_long,
-                Type.SINGLE: ctypes.c_float,
-                Type.DOUBLE: ctypes.c_double,
-            }[self.type]
-            result = c_type(x).value
-            if result != x:
-                raise OverflowError
-            return result
+        def mod(a, b):
+            # the remainder has the sign of the dividend
+            return a - b * idiv(a, b)
+
+        if self.op.is_comparison:
+            return {
+                Operator.CMP_EQ: lambda a, b: qbool(a == b),
+                Operator.CMP_NE: lambda a, b: qbool(a != b),
+                Operator.CMP_LT: lambda a, b: qbool(a < b),
+                Operator.CMP_GT: lambda a, b: qbool(a > b),
+                Operator.CMP_LE: lambda a, b: qbool(a <= b),
+                Operator.CMP_GE: lambda a, b: qbool(a >= b),
+            }[self.op](left, right)
 
         result = {
-            Operator.CMP_EQ: lambda a, b: qbool(a == b),
-            Operator.CMP_NE: lambda a, b: qbool(a != b),
-            Operator.CMP_LT: lambda a, b: qbool(a < b),
-            Operator.CMP_GT: lambda a, b: qbool(a > b),
-            Operator.CMP_LE: lambda a, b: qbool(a <= b),
-            Operator.CMP_GE: lambda a, b: qbool(a >= b),
-            Operator.AND: lambda a, b: limit(a & b),
-            Operator.OR: lambda a, b: limit(a | b),
-            Operator.XOR: lambda a, b: limit(a ^ b),
-            Operator.EQV: lambda a, b: limit(~(a ^ b)),
-            Operator.IMP: lambda a, b: limit(~a | b),
-            Operator.ADD: lambda a, b: limit(a + b),
-            Operator.SUB: lambda a, b: limit(a - b),
-            Operator.MUL: lambda a, b: limit(a * b),
-            Operator.DIV: lambda a, b: limit(a / b),
-            Operator.MOD: lambda a, b: limit(a % b),
-            Operator.INTDIV: lambda a, b: limit(a // b),
-            Operator.EXP: lambda a, b: limit(a ** b),
+            Operator.AND: lambda a, b: a & b,
+            Operator.OR: lambda a, b: a | b,
+            Operator.XOR: lambda a, b: a ^ b,
+            Operator.EQV: lambda a, b: ~(a ^ b),
+            Operator.IMP: lambda a, b: ~a | b,
+            Operator.ADD: lambda a, b: a + b,
+            Operator.SUB: lambda a, b: a - b,
+            Operator.MUL: lambda a, b: a * b,
+            Operator.DIV: lambda a, b: a / b,
+            Operator.MOD: mod,
+            Operator.INTDIV: idiv,
+            Operator.EXP: lambda a, b: a ** b,
         }[self.op](left, right)
 
-        return result
+        return cell_value(result, self.type)
 
     def _eval_string(self):
-        return self.left.eval() + self.right.eval()
-
-    def _qb_mod(self, a, b):
-        a = int(round(a))
-        b = int(round(b))
-        return a % b
+        left = self.left.eval()
+        right = self.right.eval()
+        if self.op.is_comparison:
+            return {
+                Operator.CMP_EQ: lambda a, b: a == b,
+                Operator.CMP_NE: lambda a, b: a != b,
+                Operator.CMP_LT: lambda a, b: a < b,
+                Operator.CMP_GT: lambda a, b: a > b,
+                Operator.CMP_LE: lambda a, b: a <= b,
+                Operator.CMP_GE: lambda a, b: a >= b,
+            }[self.op](left, right) and -1 or 0
+        return left + right
 
 
 class UnaryOp(Expr):
@@ -784,7 +828,9 @@ class UnaryOp(Expr):
 
         value = self.arg.eval()
         if self.op == Operator.NOT:
-            value = int(round(value))
+            # the operand is converted to the (integral) result type
+            # first, like the generated code does
+            value = convert_value(value, self.arg.type, self.type)
             value = ~value
         elif self.op == Operator.NEG:
             value = -value
@@ -793,17 +839,7 @@ class UnaryOp(Expr):
         else:
             raise InternalError('Unknown unary operator')
 
-        if self.arg.type == Type.INTEGER:
-            max_positive_int = 2**15 - 1
-            max_negative_int = -2**15
-        else:
-            max_positive_int = 2**31 - 1
-            max_negative_int = -2**31
-
-        if value > max_positive_int or value < max_negative_int:
-            value = max_negative_int
-
-        return value
+        return cell_value(value, self.type)
 
 
 class Lvalue(Expr):
